@@ -1,9 +1,10 @@
 import PySMT.Impl.Portfolio
+import PySMT.Spec.AssertStack
 /-!
 Driver for C19.  Request:
 
     portfolio eoe=<0|1> atomic=<0|1> <m0>,<m1>,...     m = T | F (answers sat / unsat) | R (raises) |
-                                                            U (answers unknown) | C (dies silently)
+                                                            U (answers unknown) | N (returns a non-bool) | C (dies silently)
 
 Answer: `ok <solve-set> | <query-set> | <closed-form-set> | states=<n> transitions=<m>`: the outcomes of one `solve()` call over *all* schedules
 of the transition system (exhaustive exploration of `isuccs`), the outcomes of a following `get_model`, and the
@@ -18,6 +19,7 @@ def parseBeh : String → Option Beh
   | "F" => some (.answer false)
   | "R" => some (.raise .solverError)
   | "U" => some (.raise .unknown)
+  | "N" => some (.raise .invalid)
   | "C" => some .crash
   | _ => none
 
@@ -27,6 +29,7 @@ def parseFlag (key s : String) : Option Bool :=
 def exnName : Exn → String
   | .solverError => "InternalSolverError"
   | .unknown => "SolverReturnedUnknownResultError"
+  | .invalid => "UnknownSolverAnswerError"
 
 def outcomeName : Outcome → String
   | .verdict true => "v:T"
@@ -45,8 +48,39 @@ def showSet (l : List String) : String :=
 
 def fuel : Nat := 4000000
 
+/-- `stack a<f> u<k> o<n> c ...`: the live assertions (SMT-LIB assertion stack, `Spec/AssertStack.lean`) after every
+    command: `a` assert formula number f, `u` push k levels, `o` pop n levels, `c` any command that leaves the stack
+    alone (solve, is_sat, get_model, ...).  Answer `ok l1|l2|...` (one comma-separated list per command, `-` = empty)
+    or `illegal <index>` when a pop would remove the base level. -/
+def parseStackCmd (t : String) : Option PySMT.AssertStack.Cmd :=
+  if t == "c" then some .check
+  else match (t.drop 1).toNat? with
+    | none => none
+    | some n =>
+      if t.startsWith "a" then some (.assert n)
+      else if t.startsWith "u" then some (.push n)
+      else if t.startsWith "o" then some (.pop n)
+      else none
+
+def showLive (l : List Nat) : String := if l.isEmpty then "-" else ",".intercalate (l.map toString)
+
+def stackAnswer (cmds : List PySMT.AssertStack.Cmd) : String := Id.run do
+  let mut s := PySMT.AssertStack.init
+  let mut out : List String := []
+  let mut k := 0
+  for c in cmds do
+    if !(PySMT.AssertStack.legal s c) then return "illegal " ++ toString k
+    s := PySMT.AssertStack.step s c
+    out := out ++ [showLive (PySMT.AssertStack.live s)]
+    k := k + 1
+  return "ok " ++ "|".intercalate out
+
 def answer (line : String) : String :=
   match line.splitOn " " with
+  | "stack" :: toks =>
+    match toks.mapM parseStackCmd with
+    | some cmds => if cmds.isEmpty then "bad-op" else stackAnswer cmds
+    | none => "bad-op"
   | ["portfolio", e, a, ms] =>
     match parseFlag "eoe" e, parseFlag "atomic" a, (ms.splitOn ",").mapM parseBeh with
     | some eoe, some atomic, some bs =>
